@@ -3,12 +3,17 @@ package main
 import (
 	"fmt"
 	"go/types"
+	"strconv"
 	"strings"
 
 	"golang.org/x/tools/go/ssa"
 )
 
 const maxInlineDepth = 6
+
+// setViewComp is the single ghost component holding the abstract view of every set-like object
+// (roaring bitmaps and, through cellof, every Duplex implementation).
+const setViewComp = "ghost:set.V"
 
 func (vc *VC) call(fr *frame, st *State, site ssa.Instruction, c *ssa.CallCommon) Value {
 	var args []Value
@@ -40,6 +45,7 @@ func (vc *VC) call(fr *frame, st *State, site ssa.Instruction, c *ssa.CallCommon
 				ptypes = append(ptypes, FromGo(sig.Params().At(i).Type()))
 			}
 			vc.oblige(st, "safe", "safe.nil@"+vc.posHint(fr, site), vc.posString(site.Pos()), Ne(vc.toTerm(recv), Zero))
+			vc.callsViaCheck(fr, st, site, vc.toTerm(recv))
 			return mkResult(vc.contractCall(fr, st, site, fc, nil, all, ptypes, resT))
 		}
 		return mkResult(vc.unknownCall(fr, st, site, key, resT))
@@ -255,13 +261,17 @@ func (vc *VC) appendOp(fr *frame, st *State, site ssa.Instruction, c *ssa.CallCo
 	if v, ok := site.(ssa.Value); ok {
 		name = v.Name()
 	}
-	newLen := vc.script.Define(name+":len", Add(s.Len, add.Len))
+	newLen := vc.script.DeclareEq(name+":len", Add(s.Len, add.Len))
 	if el.K == KUnit {
 		return SliceVal{Arr: s.Arr, Off: s.Off, Len: newLen, Cap: Ite(Le(newLen, s.Cap), s.Cap, newLen), Elem: el}
 	}
 	comp := vc.elemsComp(el)
 	fits := vc.script.Define(name+":fits", Le(newLen, s.Cap))
 	fresh := vc.script.Declare(name+":arr", SInt)
+	if vc.freshRefs == nil {
+		vc.freshRefs = map[string]bool{}
+	}
+	vc.freshRefs[fresh.S] = true
 	alloc := vc.allocOf(st.heap)
 	vc.script.Assume(Implies(st.pc, And(Gt(fresh, Zero), Not(Select(alloc, fresh)))))
 	ncap := vc.script.Declare(name+":cap", SInt)
@@ -269,22 +279,40 @@ func (vc *VC) appendOp(fr *frame, st *State, site ssa.Instruction, c *ssa.CallCo
 	elems := vc.hget(st.heap, comp)
 	// resulting array contents: positions [off, off+len) keep s, [off+len, off+len+addlen) take add
 	res := vc.script.Declare(name+":elems", ArrSort(SInt, el.SortOf()))
-	j := Term{"j!", SInt}
-	arr := Ite(fits, s.Arr, fresh)
-	off := Ite(fits, s.Off, Zero)
-	srcOld := Select(Select(elems, s.Arr), Add(s.Off, j))
-	srcAdd := Select(Select(elems, add.Arr), Add(add.Off, Sub(j, s.Len)))
-	vc.script.Assume(Implies(st.pc, Forall([]Term{j}, And(
-		Implies(And(Le(Zero, j), Lt(j, s.Len)), Eq(Select(res, Add(off, j)), srcOld)),
-		Implies(And(Le(s.Len, j), Lt(j, newLen)), Eq(Select(res, Add(off, j)), srcAdd)),
+	p := Term{"p!", SInt}
+	arr := vc.script.DeclareEq(name+":arr", Ite(fits, s.Arr, fresh))
+	off := vc.script.DeclareEq(name+":off", Ite(fits, s.Off, Zero))
+	// absolute positions (no arithmetic inside the trigger)
+	srcOld := Select(Select(elems, s.Arr), Add(Sub(p, off), s.Off))
+	srcAdd := Select(Select(elems, add.Arr), Add(add.Off, Sub(Sub(p, off), s.Len)))
+	vc.script.Assume(Implies(st.pc, Forall([]Term{p}, And(
+		Implies(And(Le(off, p), Lt(p, Add(off, s.Len))), Eq(Select(res, p), srcOld)),
+		Implies(And(Le(Add(off, s.Len), p), Lt(p, Add(off, newLen))), Eq(Select(res, p), srcAdd)),
 		// in place: everything outside the appended window is unchanged
-		Implies(And(fits, Or(Lt(j, s.Len), Ge(j, newLen))), Eq(Select(res, Add(off, j)), Select(Select(elems, s.Arr), Add(off, j)))),
-	), []Term{Select(res, Add(off, j))})))
+		Implies(And(fits, Or(Lt(p, Add(off, s.Len)), Ge(p, Add(off, newLen)))), Eq(Select(res, p), Select(Select(elems, s.Arr), p))),
+	), []Term{Select(res, p)})))
+	if el.SortOf() == SInt {
+		// append lemma for the set view of slices
+		y := Term{"y!", SInt}
+		oldA := Select(elems, s.Arr)
+		addA := Select(elems, add.Arr)
+		addMem := vc.inseq(addA, add.Off, add.Len, y)
+		if n, err := strconv.Atoi(add.Len.S); err == nil && n >= 0 && n <= 4 {
+			var alts []Term
+			for i := 0; i < n; i++ {
+				alts = append(alts, Eq(Select(addA, Add(add.Off, IntLit(int64(i)))), y))
+			}
+			addMem = Or(alts...)
+		}
+		vc.script.Assume(Implies(st.pc, Forall([]Term{y},
+			Eq(vc.inseq(res, off, newLen, y), Or(vc.inseq(oldA, s.Off, s.Len, y), addMem)),
+			[]Term{vc.inseq(res, off, newLen, y)})))
+	}
 	vc.hset(st, comp, Store(elems, arr, res))
 	vc.noteWrite(comp, Term{})
 	vc.hset(st, allocComp, Store(alloc, fresh, True))
 	vc.noteWrite(allocComp, Term{})
-	return vc.defineValue(name, SliceVal{Arr: arr, Off: off, Len: newLen, Cap: Ite(fits, s.Cap, ncap), Elem: el})
+	return SliceVal{Arr: arr, Off: off, Len: newLen, Cap: vc.script.Define(name+":cap", Ite(fits, s.Cap, ncap)), Elem: el}
 }
 
 func (vc *VC) copyOp(fr *frame, st *State, site ssa.Instruction, c *ssa.CallCommon, args []Value) Value {
@@ -301,12 +329,12 @@ func (vc *VC) copyOp(fr *frame, st *State, site ssa.Instruction, c *ssa.CallComm
 	comp := vc.elemsComp(dst.Elem)
 	elems := vc.hget(st.heap, comp)
 	res := vc.script.Declare("copy:elems", ArrSort(SInt, dst.Elem.SortOf()))
-	j := Term{"j!", SInt}
+	p := Term{"p!", SInt}
 	old := Select(elems, dst.Arr)
-	vc.script.Assume(Implies(st.pc, Forall([]Term{j}, And(
-		Implies(And(Le(Zero, j), Lt(j, n)), Eq(Select(res, Add(dst.Off, j)), Select(Select(elems, src.Arr), Add(src.Off, j)))),
-		Implies(Or(Lt(j, Zero), Ge(j, n)), Eq(Select(res, Add(dst.Off, j)), Select(old, Add(dst.Off, j)))),
-	), []Term{Select(res, Add(dst.Off, j))})))
+	vc.script.Assume(Implies(st.pc, Forall([]Term{p}, And(
+		Implies(And(Le(dst.Off, p), Lt(p, Add(dst.Off, n))), Eq(Select(res, p), Select(Select(elems, src.Arr), Add(src.Off, Sub(p, dst.Off))))),
+		Implies(Or(Lt(p, dst.Off), Ge(p, Add(dst.Off, n))), Eq(Select(res, p), Select(old, p))),
+	), []Term{Select(res, p)})))
 	vc.hset(st, comp, Store(elems, dst.Arr, res))
 	vc.noteWrite(comp, dst.Arr)
 	return n
@@ -341,6 +369,9 @@ func (vc *VC) evalModifies(env *Env, fc *FuncContract) (targets []modTarget, err
 			}
 		case "loc":
 			targets = append(targets, vc.locTargets(env, ml.E)...)
+		case "setview":
+			vc.registerComp(setViewComp, compInfo{Sort: ArrSort(SInt, ArrSort(SInt, SBool)), Depth: 1, Ghost: true})
+			targets = append(targets, modTarget{comp: setViewComp, idx: env.asInt(env.eval(ml.E))})
 		case "contents":
 			tv := env.eval(ml.E)
 			switch tv.T.K {
@@ -385,7 +416,7 @@ func (vc *VC) locTargets(env *Env, e Expr) []modTarget {
 	if !ok {
 		efail("modifies: no field %s", sel.Name)
 	}
-	return vc.flattenTargets(Loc{loc.Prefix + "." + sel.Name, loc.Idx}, ft)
+	return vc.flattenTargets(Loc{vc.fieldComp(loc.Prefix, structT, sel.Name), loc.Idx}, ft)
 }
 
 func (vc *VC) flattenTargets(loc Loc, ft SType) []modTarget {
@@ -531,6 +562,10 @@ func clauseName(prefix string, i int, c Clause) string {
 }
 
 func (vc *VC) contractCall(fr *frame, st *State, site ssa.Instruction, fc *FuncContract, body *ssa.Function, args []Value, ptypes []SType, resT SType) []Value {
+	if fc.Iterates != nil {
+		vc.iterCall(fr, st, site, fc, args, ptypes)
+		return vc.freshResults(st, site, resT)
+	}
 	name := fc.Key[strings.LastIndex(fc.Key, "/")+1:]
 	siteHint := vc.posHint(fr, site)
 	pre := vc.contractEnv(st, st.heap, fc, args, ptypes)
@@ -629,6 +664,14 @@ func (vc *VC) compsWithPrefix(env *Env, tname string) []string {
 	for c := range vc.comps {
 		if strings.HasPrefix(c, pre) {
 			out = append(out, c)
+		}
+	}
+	for k, a := range vc.w.ghostAlias {
+		if strings.HasPrefix(k, pre) {
+			if g, ok := vc.w.ghosts[k]; ok {
+				vc.registerComp(a, compInfo{Sort: ArrSort(SInt, g.SortOf()), Depth: 1, Ghost: true})
+				out = append(out, a)
+			}
 		}
 	}
 	return out
@@ -736,7 +779,12 @@ func (vc *VC) applyHavoc(st *State, targets []modTarget, allocates bool, freshCo
 			vc.script.Assume(Forall([]Term{r}, Implies(And(keep...), Eq(Select(nt, r), Select(cur, r))), []Term{Select(nt, r)}))
 			vc.goodHeapAxioms(c, info, nt, newAlloc)
 			vc.hset(st, c, nt)
-			vc.noteWrite(c, Term{})
+			vc.noteWriteFresh(c)
+			if ws != nil {
+				for _, i := range ws.idxs {
+					vc.noteWrite(c, i)
+				}
+			}
 		default:
 			nt := cur
 			for _, i := range ws.idxs {
@@ -848,7 +896,7 @@ func (vc *VC) assumeStateAxioms(st *State) {
 // axiomRelevant: an axiom is instantiated only when the function under verification mentions one of
 // the components it talks about (keeps queries small).
 func (vc *VC) axiomRelevant(ax axiomDecl) bool {
-	if ax.c.Label == "" {
+	if ax.c.Label == "" || !strings.Contains(ax.c.Label, ".") {
 		return true
 	}
 	for c := range vc.comps {
